@@ -468,6 +468,11 @@ def run(pid):
     rep.cov["rule"] = ("every file-system call boundary of the traced child (strace) and byte prefixes of appended / overwritten regions (all prefixes for writes <= 48 B, record-boundary and seeded cuts for larger ones; "
                        "all prefixes are candidates in the thorough tier); a seeded sample of images per scenario (110 quick, 1200 thorough), and EVERY image of the final commit of every crash history of StoreCrash.tla; each image is opened by the real OpenStore, every key read, then a continuation "
                        "(writes, flush, 2 primary-GC cycles with threshold 0, index GC, reopen by rescan) is executed; distinct = images, non-trivial = all (an image is a distinct on-disk state)")
+    if pid == "C10":
+        rep.cov["rule"] = ("every file-system call boundary of the traced upgrading open (strace) and byte prefixes of appended / overwritten regions; a seeded sample of 120 images per "
+                           "legacy store (all in the thorough tier); each image is opened again by the real OpenStore (the resumed upgrade), every key read and compared with the legacy map, "
+                           "legacy files must be gone, then a continuation (writes, flush, GC cycles, reopen by rescan) is executed; the order of the file-system calls of every traced "
+                           "upgrade is matched against Upgrade.tla; distinct = images, non-trivial = all")
     rep.assumptions = ["TLC + Json module", "strace reports every traced call of the child in order (the reconstructed final image is asserted byte-identical to the real directory)",
                        "a process crash loses nothing that a completed system call wrote (no fsync modelling); torn writes are prefixes of one write call",
                        "the call in flight at the crash may or may not have taken effect"]
